@@ -167,6 +167,7 @@ type Engine struct {
 
 	redirects  map[string]*ssa.Function
 	resolved   map[*ssa.Function]*calleeRes
+	unwindFn   string // function whose loop hit the unwinding limit on this path
 	intrinsics map[string]intrinsicFn
 
 	nodeSeq     int
